@@ -232,7 +232,7 @@ class RawPacketReceived(PbMessageWrapper):
     def from_packet(packet):
         """Convert packet to message
         """
-        msg = PacketReceived(
+        msg = RawPacketReceived(
             frequency=packet.metadata.frequency,
             packet=bytes(packet)
         )
